@@ -29,7 +29,7 @@ KIND = CASE // A.N_INSTR
 IK = CASE % A.N_INSTR
 
 PLUG_KINDS = (3, 4, 7)
-PLUG_INSTR = (2, 3, 4, 9, 10, 14)
+PLUG_INSTR = (2, 3, 4, 9, 10, 14, 16)
 REQ_KINDS = (9, 12)
 REQ_INSTR = (1, 15)
 PIN_PLUGS = os.environ.get("VF_PIN_PLUGS") == "1"  # quick tier of C10: plugs fixed to LEVEL_2 / electric
@@ -38,7 +38,7 @@ if PIN_PLUGS:
     PLUG_INSTR = ()
 S1_RELEVANT = KIND == 6 or IK in (4, 9, 10)
 ICE_RELEVANT = (KIND in PLUG_KINDS or IK in PLUG_INSTR or KIND == 6) and not PIN_PLUGS
-INSTR_TARGET_CELL = {1: 2, 2: 0, 3: 0, 4: 1, 5: 1, 6: 1, 8: 3, 9: 1, 10: 1, 11: 4, 12: 4, 14: 4, 15: 2}
+INSTR_TARGET_CELL = {1: 2, 2: 0, 3: 0, 4: 1, 5: 1, 6: 1, 8: 3, 9: 1, 10: 1, 11: 4, 12: 4, 14: 4, 15: 2, 16: 5}
 
 
 def _relevant_cells():
@@ -48,7 +48,9 @@ def _relevant_cells():
         t.add(A.KIND_TARGET_CELL[KIND])
     if IK in INSTR_TARGET_CELL:
         t.add(INSTR_TARGET_CELL[IK])
-    other = 3 if 3 not in t else 5
+    if IK == 16:
+        t.add(0)  # the cell of the station behind base b2
+    other = 3 if 3 not in t else (5 if 5 not in t else 2)
     t.add(other)
     return tuple(sorted(t))
 
